@@ -1,140 +1,32 @@
 """C09.5 by evaluation: `cache_variable_use` of the IR expressions and statements is run on one instance of every variant
 whose children are leaves with known read sets, for every declared type of the node's own variable; the sets it stores
-must be the union of the children's sets plus the node's own use in the class of its type.
-
-Extends the pass evaluator by mutable sets, struct defaults, callable method tables and opaque associated functions."""
+must be the union of the children's sets plus the node's own use in the class of its type."""
 import a10
-from astlib import all_items, last, render
-import facts
-from finfun import E, NONE, Iter, S, Unsupported
+from finfun import E, NONE, S, Unsupported
 import passeval
-from passeval import O, Panic, V
+from passeval import MSet, O, Panic, V
 
 IRF = "program_structure/src/intermediate_representation/ir.rs"
 EI = "program_structure/src/intermediate_representation/expression_impl.rs"
 SI = "program_structure/src/intermediate_representation/statement_impl.rs"
 VMETA = "program_structure/src/intermediate_representation/variable_meta.rs"
-
-
-class MSet:
-    """a HashSet that is mutated in place"""
-
-    def __init__(self, items=()):
-        self.items = list(items)
-
-    def add(self, x):
-        if not any(x is y or x == y for y in self.items):
-            self.items.append(x)
-
-    def __repr__(self):
-        return "MSet(%d)" % len(self.items)
-
-
-SET_CTORS = ("VariableUses::new", "HashSet::new", "VariableUses::default", "HashSet::default", "VariableUses::with_capacity", "HashSet::with_capacity")
-
-
-class UseWorld(passeval.PassWorld):
-    def __init__(self, files, fn_file):
-        super().__init__(files, fn_file)
-        self.struct_fields = {}
-        for f in files:
-            for _p, it in all_items(facts.ast().get(f) or []):
-                if it["k"] == "StructDef":
-                    self.struct_fields[it["name"]] = [(x["name"], x["ty"].replace(" ", "")) for x in it["fields"]]
-
-    def default_of(self, ty):
-        if ty in ("VariableUses", "HashSet<VariableUse>"):
-            return MSet()
-        if ty in self.struct_fields:
-            return S(ty, *[self.default_of(t) for _n, t in self.struct_fields[ty]])
-        if ty == "bool":
-            return False
-        if ty.startswith("Option<"):
-            return NONE
-        if ty.startswith("Vec<"):
-            return ("L", ())
-        raise Unsupported("default of " + ty)
-
-    def eval(self, e, env, uses):
-        k = e["k"]
-        if k == "Call" and e["func"]["k"] == "Path":
-            p = e["func"]["path"]
-            lp = last(p)
-            segs = p.split("::")
-            if p in SET_CTORS or (len(segs) >= 2 and "%s::%s" % (segs[-2], segs[-1]) in SET_CTORS):
-                for a in e["args"]:
-                    self.eval(a, env, uses)
-                return MSet()
-            if len(segs) >= 2 and lp in ("default", "new") and segs[-2] in self.struct_fields and (segs[-2], lp) not in self.methods and not e["args"]:
-                return self.default_of(segs[-2])
-            if p in ("Default::default", "std::default::Default::default"):
-                raise Unsupported("untyped default")
-            if len(segs) >= 2 and (segs[-2], lp) not in self.methods and p not in env and segs[-2][:1].isupper() and segs[-2] not in self.enums and lp not in ("Some",) and lp not in self.structs:
-                args = [self.eval(a, env, uses) for a in e["args"]]
-                return ("K", p, tuple(args))
-        if k == "MethodCall":
-            m = e["method"]
-            recv = self.eval(e["recv"], env, uses)
-            if isinstance(recv, MSet):
-                args = [self.eval(a, env, uses) for a in e["args"]]
-                if m == "insert" and len(args) == 1:
-                    recv.add(args[0])
-                    return True
-                if m == "extend" and len(args) == 1:
-                    a = args[0]
-                    items = a.items if isinstance(a, MSet) else (a.rest() if isinstance(a, Iter) else (list(a[1]) if isinstance(a, tuple) and a and a[0] == "L" else None))
-                    if items is None:
-                        raise Unsupported("extend with %r" % (a,))
-                    for x in list(items):
-                        recv.add(x)
-                    return ("T", ())
-                if m in ("clone", "to_owned") and not args:
-                    return MSet(recv.items)
-                if m in ("iter", "into_iter", "drain") and not args:
-                    return Iter(list(recv.items))
-                if m == "len" and not args:
-                    return len(recv.items)
-                if m == "is_empty" and not args:
-                    return not recv.items
-                if m == "contains" and len(args) == 1:
-                    return any(args[0] is y or args[0] == y for y in recv.items)
-                if m in ("union",) and len(args) == 1 and isinstance(args[0], MSet):
-                    return Iter(list(MSet(recv.items + args[0].items).items))
-                raise Unsupported("set method " + m)
-            if isinstance(recv, tuple) and recv and recv[0] == "O" and len(recv) > 2 and m in dict(recv[2]):
-                v = dict(recv[2])[m]
-                args = [self.eval(a, env, uses) for a in e["args"]]
-                if isinstance(v, tuple) and v and v[0] == "PY":
-                    return v[1](*args)
-                return v
-            if isinstance(recv, Iter) and m == "collect" and not e["args"]:
-                tf = str(e.get("turbofish") or "")
-                if "HashSet" in tf or "VariableUses" in tf:
-                    return MSet(recv.rest())
-            env2 = dict(env)
-            env2["__recv2"] = recv
-            try:
-                return super().eval(dict(e, recv={"k": "Path", "path": "__recv2", "line": e.get("line", 0)}), env2, uses)
-            finally:
-                for k_ in env:
-                    if k_ in env2:
-                        env[k_] = env2[k_]
-        return super().eval(e, env, uses)
+CLASSES = ("locals", "signals", "components")
 
 
 class Recorder:
+    """the variable knowledge of the node under test: records what is stored"""
+
     def __init__(self):
         self.sets = {}
-        tbl = {}
-        for cls in ("locals", "signals", "components"):
+        tbl = []
+        for cls in CLASSES:
             for rw in ("read", "written"):
-                name = "set_%s_%s" % (cls, rw)
-                tbl[name] = ("PY", (lambda key: (lambda s: self._rec(key, s)))("%s_%s" % (cls, rw)))
-        self.obj = ("O", "variable_knowledge", tuple(tbl.items()))
+                tbl.append(("set_%s_%s" % (cls, rw), ("PY", (lambda key: (lambda s: self._rec(key, s)))("%s_%s" % (cls, rw)))))
+        self.obj = ("O", "variable_knowledge", tuple(tbl))
 
     def _rec(self, key, s):
         if not isinstance(s, MSet):
-            raise Unsupported("recorded value is not a set: %r" % (s,))
+            raise Unsupported("stored value is not a set: %r" % (s,))
         self.sets[key] = list(s.items)
         return self.obj
 
@@ -149,37 +41,53 @@ VTYPES = {
 CLASS_OF = {"Local": "locals", "Component": "components", "AnonymousComponent": "components", "Signal": "signals", "unknown": None}
 
 
-def make_meta(tag, vtype, rec):
-    vt = VTYPES[vtype]()
-    tk = O("type_knowledge", variable_type=vt, is_local=(vtype == "Local"), is_signal=(vtype == "Signal"), is_component=(vtype in ("Component", "AnonymousComponent")))
-    return ("O", "meta:" + tag, (("type_knowledge", tk), ("variable_knowledge_mut", rec.obj), ("variable_knowledge", rec.obj)))
+def make_meta(tag, vtype, vk):
+    tk = O("type_knowledge", variable_type=VTYPES[vtype](), is_local=(vtype == "Local"), is_signal=(vtype == "Signal"), is_component=(vtype in ("Component", "AnonymousComponent")))
+    return ("O", "meta:" + tag, (("type_knowledge", tk), ("variable_knowledge_mut", vk), ("variable_knowledge", vk)))
 
 
 class LeafSets:
+    """leaf expressions `Number(meta, 0)` whose meta answers the read-set getters with one marker per class; storing
+    into a leaf's knowledge is a no-op"""
+
     def __init__(self):
         self.n = 0
-        self.all = {"locals": [], "signals": [], "components": []}
+        self.all = {c: [] for c in CLASSES}
 
     def leaf(self, tag):
         self.n += 1
-        marks = {}
-        for cls in ("locals", "signals", "components"):
+        tbl = []
+        for cls in CLASSES:
             mk = O("%s-of-%s#%d" % (cls, tag, self.n))
-            marks[cls] = mk
             self.all[cls].append(mk)
-        return O("leaf:%s#%d" % (tag, self.n), cache_variable_use=("T", ()), locals_read=MSet([marks["locals"]]), signals_read=MSet([marks["signals"]]), components_read=MSet([marks["components"]]), locals_written=MSet(), signals_written=MSet(), components_written=MSet())
+            tbl.append(("%s_read" % cls, MSet([mk])))
+            tbl.append(("%s_written" % cls, MSet()))
+        holder = []
+        for cls in CLASSES:
+            for rw in ("read", "written"):
+                tbl.append(("set_%s_%s" % (cls, rw), ("PY", lambda s, holder=holder: holder[0])))
+        vk = ("O", "leaf-knowledge#%d" % self.n, tuple(tbl))
+        holder.append(vk)
+        return S("Number", make_meta("leaf#%d" % self.n, "unknown", vk), 0)
 
 
-def build_ir_node(enum, vname, vdef, leaves, meta):
-    fields = {}
+def update_leaf(leaves):
+    """an element update `update(x, [i].out[j], e)` as a child expression: answers the getters like a leaf"""
+    lf = leaves.leaf("update")
+    acc = ("L", (S("ArrayAccess", leaves.leaf("update.access[0]")), S("ComponentAccess", "in"), S("ArrayAccess", leaves.leaf("update.access[2]"))))
+    return V("Expression", "Update", meta=lf[2][0], var=O("name:update.var"), access=acc, rhe=leaves.leaf("update.rhe"))
+
+
+def build_ir_node(enum, vname, vdef, leaves, meta, rhe_update=False):
+    fields, vals, own = {}, [], {}
     tuple_like = bool(vdef["fields"]) and all((f.get("name") or "").isdigit() for f in vdef["fields"])
-    vals = []
-    own = {}
     for f in vdef["fields"]:
         ty = f["ty"].replace(" ", "")
         nm = f.get("name")
         if ty == "Meta":
             v = meta
+        elif ty in ("Expression", "Box<Expression>") and rhe_update and nm == "rhe":
+            v = update_leaf(leaves)
         elif ty in ("Expression", "Box<Expression>"):
             v = leaves.leaf(nm)
         elif ty == "Vec<Expression>":
@@ -192,7 +100,7 @@ def build_ir_node(enum, vname, vdef, leaves, meta):
         elif ty == "VariableName":
             v = O("name:" + nm)
             own.setdefault("name", v)
-        elif ty == "Vec<VariableName>":
+        elif ty in ("Vec<VariableName>", "NonEmptyVec<VariableName>"):
             v = ("L", (O("name:%s[0]" % nm), O("name:%s[1]" % nm)))
             own["names"] = v
         elif ty == "AssignOp":
@@ -205,23 +113,24 @@ def build_ir_node(enum, vname, vdef, leaves, meta):
     return node, own
 
 
-def mentions(x, what):
+def mentions(x, what, depth=0):
     """does the recorded use `x` (a struct value or an opaque constructor result) carry the object `what`?"""
     if x is what:
         return True
-    if isinstance(x, tuple):
-        return any(mentions(y, what) for y in x if isinstance(y, (tuple, list, dict)))
-    if isinstance(x, (list,)):
-        return any(mentions(y, what) for y in x)
+    if depth > 6:
+        return False
+    if isinstance(x, (tuple, list)):
+        return any(mentions(y, what, depth + 1) for y in x if isinstance(y, (tuple, list, dict)))
     if isinstance(x, dict):
-        return any(mentions(y, what) for y in x.values())
+        return any(mentions(y, what, depth + 1) for y in x.values())
     return False
 
 
 def evaluate(enum, impl_file, own_use):
-    """own_use: variant -> ('read'|'written', name-field) for the variants that record a use of their own variable.
-    returns (worlds evaluated, {key: description of the first deviation}) or raises Unsupported"""
-    w = UseWorld([IRF, VMETA, impl_file], impl_file)
+    """own_use: variant -> 'read' | 'written' for the variants that record a use of their own variable.
+    returns (worlds evaluated, {key: description of the first deviation}); raises Unsupported"""
+    w = passeval.PassWorld([IRF, VMETA, EI, SI], impl_file)
+    w.lenient_opaque = True
     if (enum, "cache_variable_use") not in w.methods:
         raise Unsupported("%s::cache_variable_use not found" % enum)
     fn = w.methods[(enum, "cache_variable_use")][0]
@@ -230,18 +139,23 @@ def evaluate(enum, impl_file, own_use):
     bad = {}
     for vname, vdef in d.items():
         vts = list(VTYPES) if vname in own_use else ["unknown"]
-        for vt in vts:
+        shapes = [(vt, False) for vt in vts] + ([(vt, True) for vt in vts] if enum == "Statement" and vname == "Substitution" else [])
+        for vt, upd in shapes:
             rec = Recorder()
             leaves = LeafSets()
-            meta = make_meta(vname, vt, rec)
-            node, own = build_ir_node(enum, vname, vdef, leaves, meta)
+            meta = make_meta(vname, vt, rec.obj)
+            node, own = build_ir_node(enum, vname, vdef, leaves, meta, rhe_update=upd)
+            if upd:
+                # the update node answers with its own preset sets: only its marker is expected, not its children's
+                for cls in CLASSES:
+                    leaves.all[cls] = leaves.all[cls][:1]
             try:
                 w.call_fn(fn, [node])
             except Panic as p:
                 bad.setdefault("%s::%s/no-panic" % (enum, vname), str(p))
                 continue
             n += 1
-            for cls in ("locals", "signals", "components"):
+            for cls in CLASSES:
                 got = rec.sets.get(cls + "_read")
                 key = "%s::%s/%s-read" % (enum, vname, cls)
                 if got is None:
@@ -252,24 +166,22 @@ def evaluate(enum, impl_file, own_use):
                 extra = [g for g in got if not any(g is m for m in want_children)]
                 if vname == "Phi" and cls == "locals":
                     names = own.get("names", ("L", ()))[1]
-                    ok_own = len(extra) == len(names) and all(any(mentions(x, nm_) for x in extra) for nm_ in names)
                     want_own = len(names)
+                    ok_own = len(extra) == want_own and all(any(mentions(x, nm_) for x in extra) for nm_ in names)
                 else:
-                    rw, _nf = own_use.get(vname, (None, None))
-                    want_own = 1 if (rw == "read" and CLASS_OF[vt] == cls) else 0
+                    want_own = 1 if (own_use.get(vname) == "read" and CLASS_OF[vt] == cls) else 0
                     ok_own = len(extra) == want_own and (want_own == 0 or (mentions(extra[0], meta) and mentions(extra[0], own.get("name"))))
                 if missing:
                     bad.setdefault(key, "declared type %s: the reads of %d child(ren) are not merged (e.g. %s)" % (vt, len(missing), missing[0][1]))
                 elif not ok_own:
                     bad.setdefault(key, "declared type %s: %d use(s) of the node's own variable recorded in this class, expected %d (built from the node's meta and name)" % (vt, len(extra), want_own))
-            for cls in ("locals", "signals", "components"):
+            for cls in CLASSES:
                 got = rec.sets.get(cls + "_written")
                 key = "%s::%s/%s-written" % (enum, vname, cls)
                 if got is None:
                     bad.setdefault(key, "the set is never stored")
                     continue
-                rw, _nf = own_use.get(vname, (None, None))
-                want_own = 1 if (rw == "written" and CLASS_OF[vt] == cls) else 0
+                want_own = 1 if (own_use.get(vname) == "written" and CLASS_OF[vt] == cls) else 0
                 if len(got) != want_own or (want_own and not (mentions(got[0], meta) and mentions(got[0], own.get("name")))):
                     bad.setdefault(key, "declared type %s: %d write(s) recorded in this class, expected %d" % (vt, len(got), want_own))
     return n, bad
